@@ -11,20 +11,32 @@ def Op.core : Op → Bool
   | .tree => false
   | _ => true
 
-theorem Refine.step {c : Sys} {s : State} (h : R c s) (op : Op) (hop : op.core = true) :
-    (c.step op).2 = (Spec.step s op).2 ∧ R (c.step op).1 (Spec.step s op).1 := by
+/-- the transaction whose view an operation reads -/
+def Op.reads : Op → Option Nat
+  | .get t _ => some t
+  | .keys t => some t
+  | _ => none
+
+/-- the step theorem with transactions `cl` inside Commit / Rollback: they read nothing -/
+theorem Refine.stepX {c : Sys} {s : State} {cl : List Nat} (h : Rx cl c s) (op : Op) (hop : op.core = true)
+    (hcl : ∀ t, op.reads = some t → t ∉ cl) :
+    (c.step op).2 = (Spec.step s op).2 ∧ Rx cl (c.step op).1 (Spec.step s op).1 := by
   cases op with
   | begin t l => exact step_begin h t l
   | set t k n => exact step_set h t k n
   | del t k => exact step_del h t k
-  | get t k => exact ⟨get_eq h t k, h⟩
-  | keys t => exact ⟨getKeys_eq h t, h⟩
+  | get t k => exact ⟨get_eq h t k (hcl t rfl), h⟩
+  | keys t => exact ⟨getKeys_eq h t (hcl t rfl), h⟩
   | commit t => exact step_commit h t
   | rollback t => exact step_rollback h t
   | gc => exact step_gc h
   | drain => exact step_drain h
   | reopen f => simp [Op.core] at hop
   | tree => simp [Op.core] at hop
+
+theorem Refine.step {c : Sys} {s : State} (h : R c s) (op : Op) (hop : op.core = true) :
+    (c.step op).2 = (Spec.step s op).2 ∧ R (c.step op).1 (Spec.step s op).1 :=
+  Refine.stepX h op hop (fun _ _ => by simp)
 
 /-- for every history of core operations, from related states: same answers, related end states -/
 theorem Refine.run {c : Sys} {s : State} (h : R c s) (ops : List Op) (hops : ∀ op ∈ ops, op.core = true) :
